@@ -483,3 +483,151 @@ silent('c06-positional-style', ['C06', 'C03', 'C14'],
                           enforcer, current_rule)""")])
 silent('c06-adapter-ge5', 'C06',
        [(C, "    if len(argspec.args) > 4:", "    if len(argspec.args) >= 5:")])
+
+# ------------------------------------------------------------------ C07
+fire('c07-authorize-default', 'C07',
+     [(POL, "    def authorize(self, rule, target, creds, do_raise=False,",
+       "    def authorize(self, rule, target, creds, do_raise=True,")], 'C07.AUTHORIZE')
+fire('c07-gate-polarity', 'C07',
+     [(POL, "        if do_raise and not result:", "        if do_raise and result:")], 'C07')
+fire('c07-early-return-no-rules', 'C07',
+     [(POL, "            # No rules to reference means we're going to fail closed\n            result = False",
+       "            # No rules to reference means we're going to fail closed\n            return False")], 'C07.EXIT')
+fire('c07-debug-creds-raise', 'C07',
+     [(POL, "            except Exception as e:\n                creds_msg =", "            except TypeError as e:\n                creds_msg =")], 'C07.DEBUG')
+fire('c07-debug-target-raise', 'C07',
+     [(POL, "            except Exception as e:\n                target_msg =", "            except ValueError as e:\n                target_msg =")], 'C07.DEBUG')
+fire('c07-exc-args-dropped', 'C07',
+     [(POL, "                raise exc(*args, **kwargs)", "                raise exc(*args)")], 'C07.RAISE-ARGS')
+fire('c07-default-exc-generic', 'C07',
+     [(POL, "            raise PolicyNotAuthorized(rule, target, creds)", "            raise RuntimeError(rule)")], 'C07')
+fire('c07-scope-false-under-raise', 'C07',
+     [(POL, "                if do_raise:\n                    raise InvalidScope(", "                if do_raise and False:\n                    raise InvalidScope(")], 'C07.EXIT')
+fire('c07-authorize-no-check', 'C07',
+     [(POL, "        if rule not in self.registered_rules:\n            raise PolicyNotRegistered(rule)\n        return self.enforce(",
+       "        return self.enforce(")], 'C07.AUTHORIZE')
+fire('c07-authorize-drops-exc', 'C07',
+     [(POL, "            rule, target, creds, do_raise, exc, *args, **kwargs)", "            rule, target, creds, do_raise, None, *args, **kwargs)")], 'C07.AUTHORIZE')
+fire('c07-authorize-evaluates-first', 'C07',
+     [(POL, "        if rule not in self.registered_rules:\n            raise PolicyNotRegistered(rule)\n        return self.enforce(",
+       "        self.load_rules()\n        if rule not in self.registered_rules:\n            raise PolicyNotRegistered(rule)\n        return self.enforce(")], 'C07.AUTHORIZE')
+fire('c07-debug-mutates', 'C07',
+     [(POL, "            try:\n                creds_dict = strutils.mask_dict_password(creds)",
+       "            try:\n                creds.pop('password', None)\n                creds_dict = strutils.mask_dict_password(creds)")], 'C07.DEBUG')
+fire('c07-raise-without-doraise', 'C07',
+     [(POL, "        if do_raise and not result:", "        if not result:")], 'C07.EXIT')
+silent('c07-isenabled-variant', ['C07', 'C03', 'C08'],
+       [(POL, "        if LOG.isEnabledFor(logging.DEBUG):", "        if LOG.isEnabledFor(10):")])
+silent('c07-gate-helper', ['C07'],
+       [(POL, """        if do_raise and not result:
+            if exc:
+                raise exc(*args, **kwargs)
+
+            raise PolicyNotAuthorized(rule, target, creds)
+
+        return result""", """        if not do_raise or result:
+            return result
+        if exc:
+            raise exc(*args, **kwargs)
+        raise PolicyNotAuthorized(rule, target, creds)""")])
+silent('c07-no-debug-log-call', ['C07'],
+       [(POL, """            LOG.debug('enforce: rule=%s creds=%s target=%s',
+                      rule.__class__ if isinstance(rule, _checks.BaseCheck)
+                      else '"%s"' % rule, creds_msg, target_msg)
+""", "")])
+
+# ------------------------------------------------------------------ C08
+fire('c08-mismatch-no-deny', 'C08',
+     [(POL, "                    if not scope_valid:\n                        return False\n                result = _checks._check(\n                    rule=to_check,",
+       "                    if not scope_valid:\n                        pass\n                result = _checks._check(\n                    rule=to_check,")], 'C08.GATE')
+fire('c08-obj-mismatch-no-deny', 'C08',
+     [(POL, "                if not scope_valid:\n                    return False\n            result = _checks._check(\n                rule=rule,",
+       "                if not scope_valid:\n                    pass\n            result = _checks._check(\n                rule=rule,")], 'C08.GATE')
+fire('c08-mirror-none', 'C08',
+     [(POL, "            creds['system'] = creds.get('system_scope')", "            creds['system'] = None")], 'C08.MIRROR')
+fire('c08-mirror-removed', 'C08',
+     [(POL, "        if creds.get('system_scope'):\n            creds['system'] = creds.get('system_scope')\n", "")], 'C08.MIRROR')
+fire('c08-system-const', 'C08',
+     [(POL, "            token_scope = 'system'  # nosec", "            token_scope = 'sytem'  # nosec")], 'C08.TABLE')
+fire('c08-domain-const', 'C08',
+     [(POL, "            token_scope = 'domain'  # nosec", "            token_scope = 'project'  # nosec")], 'C08.TABLE')
+fire('c08-enforce-flag-ignored', 'C08',
+     [(POL, "            if self.conf.oslo_policy.enforce_scope:\n                if do_raise:", "            if not self.conf.oslo_policy.enforce_scope:\n                if do_raise:")], 'C08.TABLE')
+fire('c08-opt-default', 'C08',
+     [(OPTS, "    cfg.BoolOpt('enforce_scope',\n                default=True,", "    cfg.BoolOpt('enforce_scope',\n                default=False,")], 'C08.OPT')
+fire('c08-domain-before-system', 'C08',
+     [(POL, """        if creds.get('system'):
+            token_scope = 'system'  # nosec
+        elif creds.get('domain_id'):
+            token_scope = 'domain'  # nosec""", """        if creds.get('domain_id'):
+            token_scope = 'domain'  # nosec
+        elif creds.get('system'):
+            token_scope = 'system'  # nosec""")], 'C08.TABLE')
+fire('c08-scope-from-file-rule', 'C08',
+     [(POL, "                registered_rule = self.registered_rules.get(rule)\n                if registered_rule and registered_rule.scope_types:",
+       "                registered_rule = self.file_rules.get(rule)\n                if registered_rule and registered_rule.scope_types:")], 'C08.GATE')
+fire('c08-gate-after-check', 'C08',
+     [(POL, """                registered_rule = self.registered_rules.get(rule)
+                if registered_rule and registered_rule.scope_types:
+                    scope_valid = self._enforce_scope(creds, registered_rule,
+                                                      do_raise=do_raise)
+                    if not scope_valid:
+                        return False
+                result = _checks._check(
+                    rule=to_check,
+                    target=target,
+                    creds=creds,
+                    enforcer=self,
+                    current_rule=rule,
+                )""", """                result = _checks._check(
+                    rule=to_check,
+                    target=target,
+                    creds=creds,
+                    enforcer=self,
+                    current_rule=rule,
+                )
+                registered_rule = self.registered_rules.get(rule)
+                if registered_rule and registered_rule.scope_types and not result:
+                    scope_valid = self._enforce_scope(creds, registered_rule,
+                                                      do_raise=do_raise)
+                    if not scope_valid:
+                        return False""")], 'C08.GATE')
+fire('c08-gate-no-doraise', 'C08',
+     [(POL, "                    scope_valid = self._enforce_scope(creds, registered_rule,\n                                                      do_raise=do_raise)",
+       "                    scope_valid = self._enforce_scope(creds, registered_rule,\n                                                      do_raise=False)")], 'C08')
+fire('c08-false-when-match', 'C08',
+     [(POL, "        result = True\n        if token_scope not in rule.scope_types:", "        result = False\n        if token_scope not in rule.scope_types:")], 'C08.TABLE')
+fire('c08-mapper-drops', 'C08',
+     [(POL, "        for k, v in context_values.items():\n            creds[k] = v", "        for k, v in context_values.items():\n            if k != 'system_scope':\n                creds[k] = v")], 'C08.CREDS')
+silent('c08-doraise-default', ['C08', 'C07'],
+       [(POL, "    def _enforce_scope(self, creds, rule, do_raise=True):", "    def _enforce_scope(self, creds, rule, do_raise=False):")])
+silent('c08-dict-comp-mapper', ['C08'],
+       [(POL, """        creds = {}
+        # port public context attributes into the creds dictionary so long as
+        # the attribute isn't callable
+        context_values = context.to_policy_values()
+        for k, v in context_values.items():
+            creds[k] = v
+
+        return creds""", """        context_values = context.to_policy_values()
+        return {k: v for k, v in context_values.items()}""")])
+silent('c08-early-return-chain', ['C08', 'C07'],
+       [(POL, """        result = True
+        if token_scope not in rule.scope_types:
+            if self.conf.oslo_policy.enforce_scope:
+                if do_raise:
+                    raise InvalidScope(
+                        rule, rule.scope_types, token_scope
+                    )
+                else:
+                    result = False""", """        result = True
+        if token_scope in rule.scope_types:
+            return True
+        if True:
+            if self.conf.oslo_policy.enforce_scope:
+                if do_raise:
+                    raise InvalidScope(
+                        rule, rule.scope_types, token_scope
+                    )
+                else:
+                    result = False""")])
